@@ -34,11 +34,30 @@ def Tabs.world (t : Tabs) : World where
   tok := fun i x => ((t.tok.lookup x).getD []).getD i .fail
   fetch := fun _ => t.fetch
 
+def isAsWk : Wk → Bool
+  | .asOAuth | .asOIDC | .asOAuthIns | .asOIDCIns | .asOIDCApp => true
+  | _ => false
+
+/-- If `u` is an authorization-server metadata location, the issuer URL it was derived from. -/
+def asBase : Url → Option Url
+  | .at o s k ds =>
+    match ds.getLast? with
+    | some d => if isAsWk d then some (.at o s k ds.dropLast) else none
+    | none => none
+  | _ => none
+
 /-- One `Authorize` round as the monitor sees it: configuration + request URL, response, network. -/
 structure MCase where
   cfg : Config
   inp : Input
   tabs : Tabs
+
+/-- The domain of the record language: `req.URL` is a parsed URL, and the `resource_metadata` URL of
+the challenge is not spelled like an authorization-server metadata location (the harness's URL values
+are injective only on such inputs: a GET is observed as a bare URL).  The driver answers `bad-op` to a
+record outside it; Bridge.lean shows that both conditions are needed. -/
+def MCase.wf (c : MCase) : Bool :=
+  (match c.cfg.serverUrl with | .at _ _ _ _ => true | _ => false) && (asBase (rmFrom c.inp.challenges)).isNone
 
 /-- The implementation's observation of one round. `out` is the outcome class as printed (`ok` both
 for a completed flow and for the 403 skip). In `events` every GET is `.get .prm _`: the observation
@@ -71,18 +90,6 @@ def firstSome {α β} (f : α → Option β) : List α → Option β
   | a :: t => match f a with
     | some b => some b
     | none => firstSome f t
-
-def isAsWk : Wk → Bool
-  | .asOAuth | .asOIDC | .asOAuthIns | .asOIDCIns | .asOIDCApp => true
-  | _ => false
-
-/-- If `u` is an authorization-server metadata location, the issuer URL it was derived from. -/
-def asBase : Url → Option Url
-  | .at o s k ds =>
-    match ds.getLast? with
-    | some d => if isAsWk d then some (.at o s k ds.dropLast) else none
-    | none => none
-  | _ => none
 
 /-- The URLs of the GETs, in order. -/
 def getsOf (evs : List Event) : List Url :=
@@ -137,13 +144,17 @@ def chkScript (c : MCase) (o : Obs) : Option Clause :=
         some (.script e)
       else none) o.events
 
+/-- The network serves at `m` a valid protected-resource document for `res` whose first authorization server is `I`. -/
+def prmBacks (t : Tabs) (m res I : Url) : Bool :=
+  match t.prm.lookup m with
+  | some (.doc d) => specPrmOk d res && d.authServers.head? == some I
+  | _ => false
+
 /-- Is authorization server `I` the 2025-03-26 fall-back, or the first entry of a valid
 protected-resource document that was fetched from a candidate location? -/
 def prmJust (c : MCase) (gets : List Url) (I : Url) : Bool :=
-  I == c.cfg.serverUrl.root || (prmCandidates (rmFrom c.inp.challenges) c.cfg.serverUrl).any fun (m, res) =>
-    gets.contains m && match c.tabs.prm.lookup m with
-      | some (.doc d) => specPrmOk d res && d.authServers.head? == some I
-      | _ => false
+  I == c.cfg.serverUrl.root || (prmCandidates (rmFrom c.inp.challenges) c.cfg.serverUrl).any fun x =>
+    gets.contains x.1 && prmBacks c.tabs x.1 x.2 I
 
 /-- (3) every authorization server whose metadata is requested is justified. -/
 def chkPrmIssuer (c : MCase) (o : Obs) : Option Clause :=
@@ -162,18 +173,25 @@ def lastIssuer (gets : List Url) : Option Url := (gets.filterMap asBase).getLast
 /-- The metadata locations of issuer `I` that were requested. -/
 def mineOf (gets : List Url) (I : Url) : List Url := gets.filter fun m => asBase m == some I
 
+/-- The network answers 4xx at `m` (an unlisted URL answers 4xx). -/
+def is4xx (t : Tabs) (m : Url) : Bool :=
+  match (t.asm.lookup m).getD .status4xx with
+  | .status4xx => true
+  | _ => false
+
+/-- The network serves at `m` a metadata document that is valid for issuer `I`. -/
+def docAt (t : Tabs) (I m : Url) : Option AsmDoc :=
+  match t.asm.lookup m with
+  | some (.doc d) => if specAsmOk d I then some d else none
+  | _ => none
+
 def all4xx (t : Tabs) (gets : List Url) (I : Url) : Bool :=
-  (mineOf gets I).length == (asmCandidates I).length && (mineOf gets I).all fun m =>
-    match (t.asm.lookup m).getD .status4xx with
-    | .status4xx => true
-    | _ => false
+  (mineOf gets I).length == (asmCandidates I).length && (mineOf gets I).all (is4xx t)
 
 /-- The metadata the round may work with for issuer `I`: valid documents served at requested
 locations of `I`, and the 2025-03-26 fall-back when every location was requested and answered 4xx. -/
 def asmDocsFor (t : Tabs) (gets : List Url) (I : Url) : List AsmDoc :=
-  ((mineOf gets I).filterMap fun m => match t.asm.lookup m with
-    | some (.doc d) => if specAsmOk d I then some d else none
-    | _ => none) ++ (if all4xx t gets I then [fallbackAsm I] else [])
+  (mineOf gets I).filterMap (docAt t I) ++ (if all4xx t gets I then [fallbackAsm I] else [])
 
 def matchesUsed (evs : List Event) (d : AsmDoc) : Bool := (usedOf evs).all fun (r, x) => roleOf d r == x
 
@@ -211,12 +229,16 @@ def chkPre (c : MCase) (o : Obs) : Option Clause :=
     else if (effDocs c o).any fun d => issuersEqual pi d.issuer then none
     else some .preOther
 
+/-- The network answers a registration request at `u` with a client id. -/
+def regCreated (t : Tabs) (u : Url) : Bool :=
+  match t.reg.lookup u with
+  | some (.created true _) => true
+  | _ => false
+
 /-- A registration request to `d`'s registration endpoint is in the log and was answered with a client id. -/
 def registeredNow (c : MCase) (o : Obs) (d : AsmDoc) : Bool :=
   o.events.any fun e => match e with
-    | .register u => u == d.registrationEndpoint && (match c.tabs.reg.lookup u with
-        | some (.created true _) => true
-        | _ => false)
+    | .register u => u == d.registrationEndpoint && regCreated c.tabs u
     | _ => false
 
 /-- (6b) dynamically registered credentials: configured, and presented only to a server that issued
@@ -231,9 +253,12 @@ def chkDcr (c : MCase) (hist : List Url) (o : Obs) : Option Clause :=
 def chkCimd (c : MCase) (o : Obs) : Option Clause :=
   if (o.events.any fun e => e.cred == .cimd) && !c.cfg.cimd then some .cimdNotConfigured else none
 
+/-- The network answers some token request at `u` with a token. -/
+def tokGood (t : Tabs) (u : Url) : Bool := ((t.tok.lookup u).getD []).any fun r => r != .fail
+
 def goodTok (c : MCase) (o : Obs) : Bool :=
   o.events.any fun e => match e with
-    | .token u _ => ((c.tabs.tok.lookup u).getD []).any fun r => r != .fail
+    | .token u _ => tokGood c.tabs u
     | _ => false
 
 /-- (7) no installation on failure. -/
